@@ -1159,3 +1159,71 @@ func backSliceStopAtPhis(v ssa.Value, hb *ssa.BasicBlock) map[ssa.Value]bool {
 	visit(v, 0)
 	return out
 }
+
+// ruleBufferReuse (S-REUSE): a slice that was handed out is not a scratch buffer any more.  `x = x[:0]` keeps the
+// backing array; if the same slice value was stored into a map, a field, another slice or an interface just before,
+// what is appended next overwrites what was handed out (C09-m30: the edits of one file stored in the WorkspaceEdit,
+// the shared slice reset with edits[:0] and refilled for the next file - every file but the last gets another file's
+// ranges).
+func ruleBufferReuse(c *Ctx) {
+	if c.ranOnce("ruleBufferReuse") {
+		return
+	}
+	n, judged := 0, 0
+	for _, f := range c.P.ModuleFuncs() {
+		for _, b := range f.Blocks {
+			for _, ins := range b.Instrs {
+				s, ok := ins.(*ssa.Slice)
+				if !ok || s.Low != nil || s.High == nil {
+					continue
+				}
+				k, ok := s.High.(*ssa.Const)
+				if !ok || k.Value == nil || k.Value.ExactString() != "0" {
+					continue
+				}
+				if _, isSlice := s.X.Type().Underlying().(*types.Slice); !isSlice {
+					continue
+				}
+				judged++
+				v := s.X
+				if v.Referrers() == nil {
+					continue
+				}
+				kept := ""
+				for _, r := range *v.Referrers() {
+					switch x := r.(type) {
+					case *ssa.MapUpdate:
+						if x.Value == v {
+							kept = "stored into a map"
+						}
+					case *ssa.Store:
+						if x.Val == v {
+							if _, local := x.Addr.(*ssa.Alloc); !local {
+								kept = "stored into a field or element"
+							}
+						}
+					case *ssa.MakeInterface:
+						kept = "boxed into an interface value"
+					case *ssa.Call:
+						if bi, ok := x.Call.Value.(*ssa.Builtin); ok && bi.Name() == "append" && len(x.Call.Args) == 2 {
+							// append(list, v) with v as the ELEMENT slice of a variadic `append(list, v)` over [][]T
+							if x.Call.Args[1] == v {
+								if st, ok := x.Call.Args[0].Type().Underlying().(*types.Slice); ok && types.Identical(st.Elem(), v.Type()) {
+									kept = "appended to a list of slices"
+								}
+							}
+						}
+					}
+				}
+				if kept != "" {
+					n++
+					c.finding("S-REUSE", funcName(f), "a slice is reset with [:0] after it was handed out", s.Pos(),
+						"the slice that is reset to length 0 (keeping its backing array) was "+kept+" before: what is appended next overwrites the elements that were handed out - every holder but the last sees another one's data (the text edits of one file carry the ranges of the next)")
+				}
+			}
+		}
+	}
+	if n == 0 {
+		c.ok("S-REUSE", "module", "no slice reset with [:0] after being handed out", token.NoPos, "resets judged: "+itoa(judged))
+	}
+}
